@@ -4,6 +4,7 @@ import FhVerif.Model.ConnClose
 import FhVerif.Model.HeadEnd
 import FhVerif.Model.ConnStates
 import FhVerif.Model.TimeoutSem
+import FhVerif.Model.BodyStream
 namespace Fh.Driver
 open Fh Fh.Spec.Rfc
 
@@ -53,6 +54,20 @@ def opsConn (op : String) (a : List Bytes) : Option String :=
     let obs := observed.filterMap fun c => match Char.ofNat c.toNat with
       | 'N' => some Fh.Model.CS.new | 'A' => some .active | 'I' => some .idle | 'C' => some .closed | 'H' => some .hijacked | _ => none
     some s!"{String.ofList ((Fh.Model.states it).map letter)} {Fh.Model.accepts obs}"
+  | "rskeep", cl :: pre :: acts => do
+    -- streamed fixed-length body: Content-Length, prefetched bytes, then what the handler did:
+    -- f<N> = io.ReadFull of N bytes, a = read to EOF, d = drop the stream (ResetBody / SetBody / Body())
+    let c ← natOfDec? cl
+    let p ← natOfDec? pre
+    let fin := acts.foldl (fun (s : Fh.Model.HS) (a : Bytes) =>
+      match a with
+      | 102 :: n => match natOfDec? n with
+        | some k => s.run (Fh.Model.readFullActs (k + 2) s.rs k)
+        | none => s
+      | [97] => s.run (Fh.Model.readFullActs (c + 3) s.rs (c + 1))
+      | [100] => s.step .drop
+      | _ => s) (⟨⟨c, p, 0⟩, true, false⟩ : Fh.Model.HS)
+    some s!"{if fin.keep then "keep" else "close"} {fin.rs.connConsumed}"
   | "tosem", [cap, script] => do
     -- TimeoutHandler concurrency bound: script letters s (handler outlives its timeout) / f (returns at once)
     let n ← natOfDec? cap
